@@ -4,6 +4,7 @@ package c05
 import (
 	"context"
 	"fmt"
+	"os"
 	"sort"
 	"strings"
 	"testing"
@@ -89,7 +90,16 @@ func TestCheck(t *testing.T) {
 	gspec.EnableInterruptHook()
 	ctx := context.Background()
 	n := int64(cfg.Pick(48, 80))
-	rep.Cases(n, func(idx int64, rng *mon.Rand) {
+	// the last cases of every shard belong to the typed sub-workload (typed_test.go)
+	rep.Require("typed_histories_equal_to_uninterrupted_run", 50)
+	rep.Cases(n+typedCasesPerShard(cfg), func(idx int64, rng *mon.Rand) {
+		if idx >= n {
+			typedCase(ctx, rep, rng, cfg, idx-n)
+			return
+		}
+		if os.Getenv("VERIF_TYPED_ONLY") != "" {
+			return // debugging aid: only the typed cases
+		}
 		mode := gspec.Mode(idx % 3)
 		spec := gspec.Gen(rng, genOpts(rng, cfg, mode))
 		addReruns(rng, spec)
